@@ -602,12 +602,20 @@ def run(rep, tier):
     progs = env.extract(tus, 'full')
     rep.saw_programs(progs.values())
     n = 0
+    from . import c07
+    rep.rule('R07g', 'greedy_fvs keeps no function-local static state (two overlapping calls must not share the liveness / degree tables)', floor=0)
     for prog in progs.values():
         for fn in prog.fns(FN):
             n += 1
             check(rep, prog, fn)
+        c07.r07g(rep, prog, only_files=('fvs.hpp',))
     if n == 0:
         rep.analysis_broken('parmcb::greedy_fvs is not instantiated (anchor vanished)')
+    pos7 = os.path.join(env.WITNESS, 'positive', 'c07_shapes.cc')
+    pp7 = env.extract([pos7], 'full')[pos7]
+    prep7 = type(rep)(rep.prop, rep.tier)
+    c07.r07g(prep7, pp7)
+    rep.positive('R07g', 'witness/positive/c07_shapes.cc', any(i.status == 'violation' for i in prep7.instances.values()))
     pos = os.path.join(env.WITNESS, 'positive', 'c13_fvs.cc')
     try:
         pp = env.extract([pos], 'full', ('first:-I' + os.path.join(env.WITNESS, 'positive', 'broken_include5'),))[pos]
